@@ -3,6 +3,7 @@
 Every schedule of 2 real threads (3 in one thorough harness) up to a preemption bound is explored by the
 stateless scheduler of mc/explore/threadsched.py (iterative context bounding).
   Layer A: every call of a function defined under xmlschema/ is a scheduling point, preemption bound 1.
+  Layer E: the interface plus every call from library code into third-party code (XPath evaluation in elementpath).
   Layer C: (build race) the interface plus every call made directly from the body of XsdGlobals.build().
   Layer B: points restricted to the shared-state interface (caches, cached properties, build, staged maps,
            scratch context, identity widening, lock operations), preemption bound 2 (quick) / 3 (thorough).
@@ -130,7 +131,18 @@ def point_build(frame):
     return None
 
 
-POINTS = {'A': point_all, 'B': point_interface, 'C': point_build}
+def point_ext(frame):
+    """Layer E: the interface plus every call from library code into third-party code (elementpath)."""
+    lab = _label(frame.f_code)
+    if lab:
+        return lab if lab in INTERFACE else None
+    back = frame.f_back
+    if back is not None and back.f_code.co_filename.startswith(PKG) and not frame.f_code.co_filename.startswith(STDLIB):
+        return 'ext:' + frame.f_code.co_name
+    return None
+
+
+POINTS = {'A': point_all, 'B': point_interface, 'C': point_build, 'E': point_ext}
 
 
 # --- harnesses -----------------------------------------------------------------------------------------
@@ -255,18 +267,18 @@ def plan(tier):
     both = ('1.0', '1.1')
     if tier == 'quick':
         out += [('H1-build-race', v, 'C', 1) for v in both]
-        out += [('H2-xsitype-keys', '1.0', 'A', 1)] + [('H2-xsitype-keys', v, 'B', 2) for v in both]
-        out += [('H2b-xsitype-simple', '1.0', 'B', 2)]
+        out += [('H2-xsitype-keys', '1.0', 'A', 1), ('H2-xsitype-keys', '1.0', 'B', 2), ('H2-xsitype-keys', '1.1', 'B', 1)]
+        out += [('H2b-xsitype-simple', '1.0', 'B', 1)]
         out += [('H3-scratch-context', v, lay, b) for v in both for lay, b in (('A', 1), ('B', 2))]
-        out += [('H3b-validate-vs-scratch', '1.0', 'B', 2), ('H4-first-use', '1.0', 'B', 2), ('H5-decode-encode', '1.0', 'B', 2)]
+        out += [('H3b-validate-vs-scratch', '1.0', 'B', 2), ('H4-first-use', '1.0', 'B', 1), ('H5-decode-encode', '1.0', 'B', 1)]
         out += [('H6-lazy-shared', v, lay, b) for v in both for lay, b in (('A', 1), ('B', 2))]
-        out += [('H8-assertion-facets', '1.1', 'A', 1)]
+        out += [('H8-assertion-facets', '1.1', 'E', 1)]
         return out
     for name in harnesses(tier):
         for v in both:
             if name == 'H8-assertion-facets':
                 if v == '1.1':
-                    out += [(name, v, 'A', 1), (name, v, 'B', 2)]
+                    out += [(name, v, 'A', 1), (name, v, 'E', 2)]
                 continue
             if name == 'H7-three-threads':
                 out.append((name, v, 'B', 1))
